@@ -10,6 +10,8 @@ import (
 	"path/filepath"
 	"sort"
 	"strings"
+	"sync/atomic"
+	"time"
 )
 
 // ---------- PRNG: every random choice derives from one splitmix64 state ----------
@@ -67,6 +69,8 @@ type Run struct {
 	MonFails []MonFail
 	Evals    int
 	Notes    []string
+	lastOp   string
+	progress int64 // unix nanoseconds of the last recorded progress (atomic)
 }
 
 type MonFail struct {
@@ -89,9 +93,40 @@ func (r *Run) Emit(op string, obs string) {
 	fmt.Fprintln(r.ops, op)
 	fmt.Fprintln(r.impl, obs)
 	r.nOps++
+	r.lastOp = op
+	atomic.StoreInt64(&r.progress, time.Now().UnixNano())
 }
 
-func (r *Run) Count(k string)    { r.Hist[k]++ }
+func (r *Run) Count(k string) {
+	r.Hist[k]++
+	atomic.StoreInt64(&r.progress, time.Now().UnixNano())
+}
+
+// properties each scenario serves (for the watchdog's failure tag)
+var scenarioProps = map[string]string{
+	"tree": "C01,C04,C07,C08", "bridgestore": "C01,C03,C04,C07,C14", "evmbridge": "C01", "l1infostore": "C04,C05,C07,C08,C11,C14",
+	"evmger": "C11", "gersync": "C04,C07,C16", "downloader": "C05,C06", "reorgsync": "C05,C06,C07", "oracle": "C15",
+	"aggsender": "C02,C03,C09,C10,C13", "certcodec": "C03,C10,C13,C19", "claimtrace": "C03,C09,C20", "rangearith": "C17",
+	"epoch": "C18", "globalindex": "C19", "bridgeapi": "C12",
+}
+
+// Watchdog: the code under test is stuck (typically: it retries an error for ever) when the scenario makes no progress for
+// `limit`. That is reported as a monitor failure with everything recorded so far, not as a harness time-out.
+func (r *Run) Watchdog(limit time.Duration) {
+	atomic.StoreInt64(&r.progress, time.Now().UnixNano())
+	go func() {
+		for {
+			time.Sleep(5 * time.Second)
+			if time.Since(time.Unix(0, atomic.LoadInt64(&r.progress))) > limit {
+				r.Fail(fmt.Sprintf("[%s] the scenario made no progress for %s: the code under test does not return from the operation that follows `%s` (stuck, or retrying a failure for ever)",
+					scenarioProps[r.Scenario], limit, r.lastOp), nil)
+				r.Close()
+				os.Exit(0)
+			}
+		}
+	}()
+}
+
 func (r *Run) Case(key string)   { r.Distinct[key] = struct{}{} }
 func (r *Run) Sample(s string) {
 	if len(r.Samples) < 6 {
@@ -189,4 +224,17 @@ func devNull() *bufio.Writer {
 	f, err := os.OpenFile(os.DevNull, os.O_WRONLY, 0)
 	must(err)
 	return bufio.NewWriter(f)
+}
+
+// mustUnlocked: a control statement on a store's database failed. "database is locked" means that the code under test left
+// a transaction open (neither committed nor rolled back): that is a finding, not a harness error.
+func mustUnlocked(r *Run, lines []string, store string, err error) {
+	if err == nil {
+		return
+	}
+	if strings.Contains(err.Error(), "locked") {
+		r.Fail("[C04,C07] the "+store+" stays locked for every other connection: an earlier operation of the syncer (a block or a reorg) returned without committing or rolling back its transaction, so nothing can be written any more", append([]string{"new"}, lines...))
+		panic(stopRun{})
+	}
+	panic(err)
 }
